@@ -653,6 +653,16 @@ def oracle_build(pid, sc, ob, pair=None):
         if sc.get("method") == "HEAD":
             if not ob["nowriter"]:
                 return "streaming_body returned a writer for HEAD"
+            nbytes = 0
+            for o, r in zip(sc["ops"], res):
+                if o[0] == "P" and ">" in r:
+                    ev = r.split(">", 1)[1].split("!")[0]
+                    if ev[0] == "D":
+                        nbytes += len(bytes.fromhex(ev[1:]))
+                elif o[0] == "D" and r.startswith("d") and r != "d-":
+                    nbytes += len(bytes.fromhex(r.split("!")[0][1:].split(":")[0]))
+            if nbytes:
+                return "streaming_body: the HEAD response body is not empty (%d bytes came out of it)" % nbytes
             if pair is not None and pair[1]["panic"] is None:
                 if sorted(pair[1]["headers"]) != sorted(ob["headers"]) or pair[1]["status"] != ob["status"]:
                     return "streaming_body: HEAD response headers %r differ from GET's %r" % (ob["headers"], pair[1]["headers"])
